@@ -367,3 +367,77 @@ func runCommitFault(r *runner, rng *rand.Rand) {
 		r.violate("commitfault:failed-batch-left-changes", "the batch failed at COMMIT but the tables changed:\n"+diffLines(after.Dump(), before.Dump()))
 	}
 }
+
+// runSingle: batches of exactly one transaction with exactly one command (what an idle server or a store batch size of 1
+// produces), the command being one that writes several rows (a routed promise together with its task; the completion
+// commands). The failure is injected at its LAST row-changing step; the submission must fail and nothing of the
+// command may remain (never a routed promise without the task created with it).
+func runSingle(r *runner, rng *rand.Rand) {
+	bs := []*backend{openSqlite("")}
+	if useMem {
+		bs = []*backend{openSqlite(":memory:")}
+	}
+	defer bs[0].close()
+	b := bs[0]
+	ref := NewRef()
+	g := &Gen{r: rand.New(rand.NewSource(rng.Int63())), ref: ref}
+	for i := 0; i < 2+g.r.Intn(6); i++ {
+		sb := genBatch(g)
+		r.cursors = g.cursors
+		if !r.execBatch(b, ref, sb, "setup") {
+			return
+		}
+	}
+	for round := 0; round < 6; round++ {
+		var c *t_aio.Command
+		if g.r.Intn(3) != 0 {
+			pc := g.createPromise()
+			pc.Id = fmt.Sprintf("single-%d-%d", round, g.r.Intn(1000000))
+			tc := g.createTask()
+			tc.Id = "__invoke:" + pc.Id
+			c = &t_aio.Command{Kind: t_aio.CreatePromiseAndTask, CreatePromiseAndTask: &t_aio.CreatePromiseAndTaskCommand{PromiseCommand: pc, TaskCommand: tc}}
+		} else {
+			c = g.Command()
+		}
+		trg := triggersFor(c, ref)
+		if trg == nil {
+			continue
+		}
+		m := ref.Clone()
+		e, err := m.Apply(c)
+		if err != nil || e.Canon == "" || strings.HasPrefix(e.Canon, "rows=0") || strings.HasPrefix(e.Canon, "n=") || e.Canon == "p=0,t=0" {
+			continue // would not change a row
+		}
+		before, err := vh.ReadSnapshot(b.obs)
+		if err != nil {
+			r.violate("observer:"+b.name, err.Error())
+			return
+		}
+		for _, t := range trg {
+			if _, err := b.obs.Exec(t); err != nil {
+				r.violate("inject:trigger:"+b.name, fmt.Sprintf("cannot install %s: %v", t, err))
+				return
+			}
+		}
+		cqes := b.process(mkSQEs([]txr{{cmds: []*t_aio.Command{c}}}))
+		dropTriggers(b.obs)
+		r.rep.FaultPoints++
+		r.rep.Commits++
+		what := fmt.Sprintf("failure injected inside the only command %s of a one-transaction batch", cmdName(c))
+		if len(cqes) != 1 || cqes[0].Error == nil {
+			r.violate("single:not-reached:"+c.Kind.String(), what+": the batch committed; the model says this command changes a row")
+			return
+		}
+		after, err := vh.ReadSnapshot(b.obs)
+		if err != nil {
+			r.violate("observer:"+b.name, err.Error())
+			return
+		}
+		if !before.Equal(after) {
+			r.violate("single:partial-effects:"+c.Kind.String(), fmt.Sprintf("%s: the command failed but part of it is stored:\n%s", what, diffLines(after.Dump(), before.Dump())))
+			return
+		}
+		r.nontriv = true
+		r.rep.Hit("single.checked." + c.Kind.String())
+	}
+}
